@@ -308,17 +308,13 @@ Proof.
   obind_inv H.
   destruct (s_timer q) as [k|e| |e d|e] eqn:Ht; cbn in Hsr; try discriminate.
   - (* RTO *)
-    sproj in H.
-    destruct (s_pending_fast_retransmit q) eqn:Hp.
-    + inversion H; subst s1 tg; clear H. sproj. conj_split; try reflexivity; auto.
-      * apply cc_on_rto_ok.
-      * apply rtte_on_rto_ok.
-      * intros Hr. cbn. apply rtte_on_rto_ok in Hr. apply rtte_timeout_bounds in Hr. lia.
-    + destruct ((s_remote_win_len q =? 0) && negb (rb_is_empty (s_tx_buffer q))) eqn:Hz;
-        inversion H; subst s1 tg; clear H; sproj; conj_split; try reflexivity; auto;
-        try apply cc_on_rto_ok; try apply rtte_on_rto_ok.
-      intros _. right. split; [reflexivity|]. split; [reflexivity|].
-      intros HL HW. rewrite HW, (rb_is_empty_false _ HL) in Hz. discriminate.
+    (* since /repo 883b7a7 the RTO clears pending_fast_retransmit: only the probe question is left *)
+    sproj in H. cbn [andb negb] in H.
+    destruct ((s_remote_win_len q =? 0) && negb (rb_is_empty (s_tx_buffer q))) eqn:Hz;
+      inversion H; subst s1 tg; clear H; sproj; conj_split; try reflexivity; auto;
+      try apply cc_on_rto_ok; try apply rtte_on_rto_ok.
+    intros _. right. split; [reflexivity|]. split; [reflexivity|].
+    intros HL HW. rewrite HW, (rb_is_empty_false _ HL) in Hz. discriminate.
   - (* fast retransmit *)
     sproj in H. inversion H; subst s1 tg; clear H. sproj. conj_split; try reflexivity; auto.
     + apply cc_on_loss_ok.
@@ -802,6 +798,18 @@ Ltac weak_close W Hst :=
   cbn [st_conn st_live st_nodata timer_is_close timer_set_for_close timer_set_for_idle] in *;
   try discriminate; try assumption; auto; try close_contra.
 
+(* RST in SYN-RECEIVED of a listener (/repo 4d1240b): back to a pristine LISTEN through reset() *)
+Lemma relisten_inv : forall s ep, tcp_live_inv s ->
+  tcp_live_inv (tcp_set_state (upd_listen_endpoint (tcp_reset s) ep) Listen).
+Proof.
+  intros s ep I. pose proof (reset_inv s I) as J.
+  pose proof (reset_tx_len s) as HL. pose proof (reset_timer s) as HT.
+  assert (HU : s_tuple (tcp_reset s) = None) by apply tcp_reset_tuple.
+  revert J HL HT HU. generalize (tcp_reset s). intros R J HL HT HU. inv_destruct J.
+  constructor; unfold live_K; sproj; cbn [st_conn st_nodata st_live]; try discriminate; auto.
+  rewrite HT. discriminate.
+Qed.
+
 Lemma transition_ret : forall cx s ip r c al aof tg s' reply,
   tcp_process_transition cx s ip r c al aof = Ok (Ret tg s' reply) ->
   tcp_live_inv s -> tcp_live_inv s'.
@@ -812,6 +820,7 @@ Proof.
            | context [if ?b then _ else _] => destruct b eqn:?
            end;
     try discriminate; try (inversion H; subst s'; exact I);
+    try (cbv zeta in H; inversion H; subst s'; apply relisten_inv; exact I);
     try (inv_destruct I; inversion H; subst s'; constructor; unfold live_K in *; sproj;
          rewrite ?Hst in *; cbn [st_conn st_live st_nodata] in *; try discriminate; auto;
          match goal with Hc : timer_is_close _ = true -> _ |- timer_is_close _ = true -> _ =>
